@@ -787,3 +787,501 @@ Proof.
     + left. unfold vneg. cbn [nneg ROps]. apply map_opp_opp.
   - unfold curvature. cbn [ndiv ROps]. rewrite Z0. unfold Rdiv. ring.
 Qed.
+
+(* ------------------------------------------------------------------ the original rule is right when the
+   caller's extra entry (w) of the normal is 0, and for Cartesian point types *)
+Lemma vdot_app : forall a b p,
+  vdot ROps (a ++ b) p = vdot ROps a (firstn (length a) p) + vdot ROps b (skipn (length a) p).
+Proof.
+  induction a as [|x a IH]; intros b p; cbn [app length firstn skipn].
+  - rewrite vdot_nil_l. lra.
+  - destruct p as [|y p]; [rewrite !vdot_nil_r; lra|]. rewrite !vdot_cons, IH. lra.
+Qed.
+
+Lemma nth_skipn_plus {A} (d : A) : forall n l i, nth i (skipn n l) d = nth (n + i) l d.
+Proof.
+  induction n as [|n IH]; intros l i; [reflexivity|]. destruct l as [|x l]; cbn [skipn plus nth].
+  - destruct i; reflexivity.
+  - apply IH.
+Qed.
+
+Lemma sign_div d s : 0 <= s -> (s = 0 -> d = 0) -> (d / s <= 0 -> d <= 0) /\ (0 < d / s -> 0 <= d).
+Proof.
+  intros Hs Hz. destruct (Req_dec s 0) as [Z|NZ].
+  - rewrite (Hz Z). split; intros; lra.
+  - assert (0 < s) as S by lra. pose proof (Rinv_0_lt_compat _ S) as I. unfold Rdiv. split; intros H; nra.
+Qed.
+
+Lemma normal_faces_sensor_old_rule_w0 : forall eig dim size p nb normal_in,
+  dim = 2%nat \/ dim = 3%nat ->
+  eig_contract dim (covariance ROps dim size nb) (eig (covariance ROps dim size nb)) ->
+  (length p <= S dim)%nat -> vcoord ROps normal_in dim = 0 ->
+  let n := firstn dim (e_normal (estimate_point ROps eig true dim size p nb normal_in)) in
+  vdot ROps n (firstn dim p) <= 0.
+Proof.
+  intros eig dim size p nb normal_in D H Lp W. cbv zeta. unfold estimate_point.
+  destruct (eig (covariance ROps dim size nb)) as [lam cols]. cbn [e_normal].
+  assert (0 < dim)%nat as D0 by lia.
+  destruct (contract_col0 dim _ lam cols D0 H) as [L U].
+  set (col0 := nth 0 cols []) in *. unfold write_normal, flip_full. rewrite (firstn_all2 col0) by lia.
+  set (rest := skipn dim normal_in).
+  (* the test value *)
+  assert (vdot ROps (col0 ++ rest) p = vdot ROps col0 (firstn dim p)) as E.
+  { rewrite vdot_app, L.
+    assert (vdot ROps rest (skipn dim p) = 0) as Z; [|lra].
+    assert (length (skipn dim p) <= 1)%nat as Ls by (rewrite skipn_length; lia).
+    assert (nth 0 rest 0 = 0) as R0.
+    { unfold rest. rewrite nth_skipn_plus, Nat.add_0_r. exact W. }
+    destruct rest as [|r0 rest']; [apply vdot_nil_l|].
+    destruct (skipn dim p) as [|w [|? ?]]; [apply vdot_nil_r| |cbn in Ls; lia].
+    cbn in R0. subst r0. rewrite vdot_cons, vdot_nil_r. ring. }
+  assert (vdot ROps p p = 0 -> vdot ROps col0 (firstn dim p) = 0) as Z0.
+  { intros Z. apply vdot_self_zero.
+    rewrite <- (firstn_skipn dim p) in Z at 1. rewrite vdot_app in Z.
+    pose proof (vdot_nonneg (firstn dim p)) as P1.
+    assert (0 <= vdot ROps (skipn dim p) (skipn (length (firstn dim p)) p)) as P2.
+    { destruct (Nat.le_gt_cases dim (length p)) as [G|G].
+      - rewrite firstn_length_le by exact G. apply vdot_nonneg.
+      - rewrite skipn_all2 by lia. rewrite vdot_nil_l. lra. }
+    assert (firstn (length (firstn dim p)) p = firstn dim p) as F.
+    { destruct (Nat.le_gt_cases dim (length p)) as [G|G].
+      - rewrite firstn_length_le by exact G. reflexivity.
+      - rewrite firstn_length, Nat.min_r by lia. rewrite !firstn_all2 by lia. reflexivity. }
+    rewrite F in Z. lra. }
+  change (ngtb ROps ?a ?b) with (Rltb b a). cbn [nzero ROps].
+  rewrite vdot_vdivs, E. unfold vnorm. cbn [nsqrt ROps].
+  destruct (sign_div (vdot ROps col0 (firstn dim p)) (sqrt (vdot ROps p p)) (sqrt_pos _)) as [S1 S2].
+  { intros Z. apply Z0. apply sqrt_eq_0; [apply vdot_nonneg|exact Z]. }
+  destruct (Rltb 0 _) eqn:T.
+  - apply Rltb_true in T. unfold vneg. rewrite map_app. fold (vneg ROps col0).
+    rewrite firstn_app_len by (rewrite vneg_length; exact L). rewrite vdot_vneg_l.
+    pose proof (S2 T). lra.
+  - apply Rltb_false in T. rewrite firstn_app_len by exact L. apply S1. exact T.
+Qed.
+
+(* ------------------------------------------------------------------ rotation equivariance (covariance level) *)
+Definition delta (i j : nat) : R := if (i =? j)%nat then 1 else 0.
+
+(* Rm^T Rm = I and Rm Rm^T = I, entrywise on the dim x dim block *)
+Definition is_rotation (dim : nat) (Rm : list (list R)) : Prop :=
+  (forall i j, (i < dim)%nat -> (j < dim)%nat ->
+     sumn (fun k => mget ROps Rm k i * mget ROps Rm k j) dim = delta i j) /\
+  (forall i j, (i < dim)%nat -> (j < dim)%nat ->
+     sumn (fun k => mget ROps Rm i k * mget ROps Rm j k) dim = delta i j).
+
+(* C' = Rm C Rm^T, entrywise *)
+Definition conj_by (dim : nat) (Rm C C' : list (list R)) : Prop :=
+  forall i j, (i < dim)%nat -> (j < dim)%nat ->
+    mget ROps C' i j = sumn (fun k => sumn (fun l => mget ROps Rm i k * mget ROps C k l * mget ROps Rm j l) dim) dim.
+
+(* Rm x and Rm^T x *)
+Definition rot_apply (dim : nat) (Rm : list (list R)) (x : list R) : list R :=
+  map (fun i => sumn (fun k => mget ROps Rm i k * vcoord ROps x k) dim) (seq 0 dim).
+Definition rot_applyT (dim : nat) (Rm : list (list R)) (x : list R) : list R :=
+  map (fun k => sumn (fun i => mget ROps Rm i k * vcoord ROps x i) dim) (seq 0 dim).
+
+Lemma quad_rot dim Rm C C' x : dim = 2%nat \/ dim = 3%nat -> conj_by dim Rm C C' -> length x = dim ->
+  quad dim C' x = quad dim C (rot_applyT dim Rm x).
+Proof.
+  intros [->| ->] HC Lx.
+  - destruct x as [|x0 [|x1 [|? ?]]]; try discriminate Lx.
+    unfold quad, rot_applyT. cbn [sumn map seq]. rewrite !HC by lia. cbn [sumn]. cbn [vcoord nth]. ring.
+  - destruct x as [|x0 [|x1 [|x2 [|? ?]]]]; try discriminate Lx.
+    unfold quad, rot_applyT. cbn [sumn map seq]. rewrite !HC by lia. cbn [sumn]. cbn [vcoord nth]. ring.
+Qed.
+
+Section Rot.
+Variable Rm : list (list R).
+Local Notation r00 := (mget ROps Rm 0 0). Local Notation r01 := (mget ROps Rm 0 1). Local Notation r02 := (mget ROps Rm 0 2).
+Local Notation r10 := (mget ROps Rm 1 0). Local Notation r11 := (mget ROps Rm 1 1). Local Notation r12 := (mget ROps Rm 1 2).
+Local Notation r20 := (mget ROps Rm 2 0). Local Notation r21 := (mget ROps Rm 2 1). Local Notation r22 := (mget ROps Rm 2 2).
+
+Lemma rot_applyT3 x0 x1 x2 : rot_applyT 3 Rm [x0; x1; x2] =
+  [d3 r00 r10 r20 x0 x1 x2; d3 r01 r11 r21 x0 x1 x2; d3 r02 r12 r22 x0 x1 x2].
+Proof. unfold rot_applyT, d3. cbn [map seq sumn vcoord nth]. f_equal; [ring|f_equal; [ring|f_equal; ring]]. Qed.
+Lemma rot_apply3 x0 x1 x2 : rot_apply 3 Rm [x0; x1; x2] =
+  [d3 r00 r01 r02 x0 x1 x2; d3 r10 r11 r12 x0 x1 x2; d3 r20 r21 r22 x0 x1 x2].
+Proof. unfold rot_apply, d3. cbn [map seq sumn vcoord nth]. f_equal; [ring|f_equal; [ring|f_equal; ring]]. Qed.
+Lemma rot_applyT2 x0 x1 : rot_applyT 2 Rm [x0; x1] = [d2 r00 r10 x0 x1; d2 r01 r11 x0 x1].
+Proof. unfold rot_applyT, d2. cbn [map seq sumn vcoord nth]. f_equal; [ring|f_equal; ring]. Qed.
+Lemma rot_apply2 x0 x1 : rot_apply 2 Rm [x0; x1] = [d2 r00 r01 x0 x1; d2 r10 r11 x0 x1].
+Proof. unfold rot_apply, d2. cbn [map seq sumn vcoord nth]. f_equal; [ring|f_equal; ring]. Qed.
+
+Lemma rot_facts3 : is_rotation 3 Rm ->
+  (r00 * r00 + r10 * r10 + r20 * r20 = 1 /\ r01 * r01 + r11 * r11 + r21 * r21 = 1 /\ r02 * r02 + r12 * r12 + r22 * r22 = 1 /\
+   r00 * r01 + r10 * r11 + r20 * r21 = 0 /\ r00 * r02 + r10 * r12 + r20 * r22 = 0 /\ r01 * r02 + r11 * r12 + r21 * r22 = 0) /\
+  (r00 * r00 + r01 * r01 + r02 * r02 = 1 /\ r10 * r10 + r11 * r11 + r12 * r12 = 1 /\ r20 * r20 + r21 * r21 + r22 * r22 = 1 /\
+   r00 * r10 + r01 * r11 + r02 * r12 = 0 /\ r00 * r20 + r01 * r21 + r02 * r22 = 0 /\ r10 * r20 + r11 * r21 + r12 * r22 = 0).
+Proof.
+  intros [H1 H2].
+  pose proof (H1 0%nat 0%nat ltac:(lia) ltac:(lia)) as A00. pose proof (H1 1%nat 1%nat ltac:(lia) ltac:(lia)) as A11.
+  pose proof (H1 2%nat 2%nat ltac:(lia) ltac:(lia)) as A22. pose proof (H1 0%nat 1%nat ltac:(lia) ltac:(lia)) as A01.
+  pose proof (H1 0%nat 2%nat ltac:(lia) ltac:(lia)) as A02. pose proof (H1 1%nat 2%nat ltac:(lia) ltac:(lia)) as A12.
+  pose proof (H2 0%nat 0%nat ltac:(lia) ltac:(lia)) as B00. pose proof (H2 1%nat 1%nat ltac:(lia) ltac:(lia)) as B11.
+  pose proof (H2 2%nat 2%nat ltac:(lia) ltac:(lia)) as B22. pose proof (H2 0%nat 1%nat ltac:(lia) ltac:(lia)) as B01.
+  pose proof (H2 0%nat 2%nat ltac:(lia) ltac:(lia)) as B02. pose proof (H2 1%nat 2%nat ltac:(lia) ltac:(lia)) as B12.
+  unfold delta in *. cbn [sumn Nat.eqb] in *. repeat split; lra.
+Qed.
+
+Lemma rot_facts2 : is_rotation 2 Rm ->
+  (r00 * r00 + r10 * r10 = 1 /\ r01 * r01 + r11 * r11 = 1 /\ r00 * r01 + r10 * r11 = 0) /\
+  (r00 * r00 + r01 * r01 = 1 /\ r10 * r10 + r11 * r11 = 1 /\ r00 * r10 + r01 * r11 = 0).
+Proof.
+  intros [H1 H2].
+  pose proof (H1 0%nat 0%nat ltac:(lia) ltac:(lia)) as A00. pose proof (H1 1%nat 1%nat ltac:(lia) ltac:(lia)) as A11.
+  pose proof (H1 0%nat 1%nat ltac:(lia) ltac:(lia)) as A01.
+  pose proof (H2 0%nat 0%nat ltac:(lia) ltac:(lia)) as B00. pose proof (H2 1%nat 1%nat ltac:(lia) ltac:(lia)) as B11.
+  pose proof (H2 0%nat 1%nat ltac:(lia) ltac:(lia)) as B01.
+  unfold delta in *. cbn [sumn Nat.eqb] in *. repeat split; lra.
+Qed.
+
+Lemma rotation_equivariance3 C C' lam cols lam' cols' :
+  is_rotation 3 Rm -> conj_by 3 Rm C C' ->
+  eig_contract 3 C (lam, cols) -> eig_contract 3 C' (lam', cols') ->
+  vcoord ROps lam 0 < vcoord ROps lam 1 ->
+  vcoord ROps lam' 0 = vcoord ROps lam 0 /\
+  (nth 0 cols' [] = rot_apply 3 Rm (nth 0 cols []) \/
+   nth 0 cols' [] = vneg ROps (rot_apply 3 Rm (nth 0 cols []))).
+Proof.
+  intros HR HC H H' Gap.
+  destruct (rot_facts3 HR) as ((A00 & A11 & A22 & A01 & A02 & A12) & (B00 & B11 & B22 & B01 & B02 & B12)).
+  destruct (rayleigh 3 C lam cols (or_intror eq_refl) H) as (Q1 & _ & Q3).
+  destruct (rayleigh 3 C' lam' cols' (or_intror eq_refl) H') as (Q1' & _ & Q3').
+  destruct (contract_dim3 C lam cols H) as (l0 & l1 & l2 & a0 & a1 & a2 & b0 & b1 & b2 & c0 & c1 & c2 & -> & -> & L01 & L12
+        & (R00 & R11 & R22 & R01 & R02 & R12) & (K00 & _)).
+  destruct (contract_dim3 C' lam' cols' H') as (l0' & l1' & l2' & a0' & a1' & a2' & b0' & b1' & b2' & c0' & c1' & c2' & -> & -> & _ & _
+        & _ & (K00' & _)).
+  destruct H as (_ & _ & _ & _ & _ & _ & HE). cbn [fst snd] in HE.
+  cbn [nth vcoord] in *.
+  (* u = Rm^T v0' is a unit vector with  u^T C u = lam0' *)
+  pose proof (quad_rot 3 Rm C C' [a0'; a1'; a2'] (or_intror eq_refl) HC eq_refl) as Eu.
+  rewrite rot_applyT3 in Eu. rewrite Q1' in Eu.
+  set (u0 := d3 r00 r10 r20 a0' a1' a2') in *. set (u1 := d3 r01 r11 r21 a0' a1' a2') in *.
+  set (u2 := d3 r02 r12 r22 a0' a1' a2') in *.
+  pose proof (parseval3 r00 r10 r20 r01 r11 r21 r02 r12 r22 B00 B11 B22 B01 B02 B12 a0' a1' a2') as Pu.
+  fold u0 u1 u2 in Pu.
+  assert (u0 * u0 + u1 * u1 + u2 * u2 = 1) as Uu by lra.
+  pose proof (Q3 [u0; u1; u2] eq_refl ltac:(cbn; lra)) as Lo.
+  (* w = Rm v0 is a unit vector with  w^T C' w = lam0 *)
+  pose proof (quad_rot 3 Rm C C' (rot_apply 3 Rm [a0; a1; a2]) (or_intror eq_refl) HC ltac:(rewrite rot_apply3; reflexivity)) as Ew.
+  rewrite rot_apply3 in Ew. rewrite rot_applyT3 in Ew.
+  set (w0 := d3 r00 r01 r02 a0 a1 a2) in *. set (w1 := d3 r10 r11 r12 a0 a1 a2) in *.
+  set (w2 := d3 r20 r21 r22 a0 a1 a2) in *.
+  destruct (resolve3 r00 r01 r02 r10 r11 r12 r20 r21 r22 A00 A11 A22 A01 A02 A12 a0 a1 a2) as (Z0 & Z1 & Z2).
+  fold w0 w1 w2 in Z0, Z1, Z2.
+  replace (d3 r00 r10 r20 w0 w1 w2) with a0 in Ew by (unfold d3; lra).
+  replace (d3 r01 r11 r21 w0 w1 w2) with a1 in Ew by (unfold d3; lra).
+  replace (d3 r02 r12 r22 w0 w1 w2) with a2 in Ew by (unfold d3; lra).
+  rewrite Q1 in Ew.
+  pose proof (parseval3 r00 r01 r02 r10 r11 r12 r20 r21 r22 A00 A11 A22 A01 A02 A12 a0 a1 a2) as Pw.
+  fold w0 w1 w2 in Pw.
+  pose proof (Q3' [w0; w1; w2] eq_refl ltac:(cbn; lra)) as Hi. rewrite Ew in Hi.
+  assert (l0' = l0) as E0 by lra. split; [exact E0|].
+  (* u is aligned with v0 *)
+  rewrite (quad3_expand C l0 l1 l2 a0 a1 a2 b0 b1 b2 c0 c1 c2 _ _ _ HE) in Eu.
+  pose proof (parseval3 a0 a1 a2 b0 b1 b2 c0 c1 c2 R00 R11 R22 R01 R02 R12 u0 u1 u2) as Pe.
+  set (A := d3 a0 a1 a2 u0 u1 u2) in *. set (B := d3 b0 b1 b2 u0 u1 u2) in *. set (Cc := d3 c0 c1 c2 u0 u1 u2) in *.
+  assert (0 + (l1 - l0) * (B * B) + (l2 - l0) * (Cc * Cc) = 0) as Zs.
+  { replace (A * A) with (1 - B * B - Cc * Cc) in Eu by lra. lra. }
+  destruct (nonneg_sum_zero (l1 - l0) (l2 - l0) 0 B Cc ltac:(lra) ltac:(lra) ltac:(lra) Zs) as (_ & ZB & ZC).
+  destruct (resolve3 r00 r10 r20 r01 r11 r21 r02 r12 r22 B00 B11 B22 B01 B02 B12 a0' a1' a2') as (V0 & V1 & V2).
+  fold u0 u1 u2 in V0, V1, V2.
+  rewrite rot_apply3.
+  destruct (align3 a0 a1 a2 b0 b1 b2 c0 c1 c2 R00 R11 R22 R01 R02 R12 u0 u1 u2 Uu ZB ZC)
+    as [(_ & Y0 & Y1 & Y2)|(_ & Y0 & Y1 & Y2)]; rewrite Y0, Y1, Y2 in V0, V1, V2; [left|right].
+  - unfold d3. f_equal; [lra|f_equal; [lra|f_equal; lra]].
+  - unfold vneg. cbn [map nneg ROps]. unfold d3. f_equal; [lra|f_equal; [lra|f_equal; lra]].
+Qed.
+
+Lemma rotation_equivariance2 C C' lam cols lam' cols' :
+  is_rotation 2 Rm -> conj_by 2 Rm C C' ->
+  eig_contract 2 C (lam, cols) -> eig_contract 2 C' (lam', cols') ->
+  vcoord ROps lam 0 < vcoord ROps lam 1 ->
+  vcoord ROps lam' 0 = vcoord ROps lam 0 /\
+  (nth 0 cols' [] = rot_apply 2 Rm (nth 0 cols []) \/
+   nth 0 cols' [] = vneg ROps (rot_apply 2 Rm (nth 0 cols []))).
+Proof.
+  intros HR HC H H' Gap.
+  destruct (rot_facts2 HR) as ((A00 & A11 & A01) & (B00 & B11 & B01)).
+  destruct (rayleigh 2 C lam cols (or_introl eq_refl) H) as (Q1 & _ & Q3).
+  destruct (rayleigh 2 C' lam' cols' (or_introl eq_refl) H') as (Q1' & _ & Q3').
+  destruct (contract_dim2 C lam cols H) as (l0 & l1 & a0 & a1 & b0 & b1 & -> & -> & L01 & (R00 & R11 & R01) & (K00 & _)).
+  destruct (contract_dim2 C' lam' cols' H') as (l0' & l1' & a0' & a1' & b0' & b1' & -> & -> & _ & _ & (K00' & _)).
+  destruct H as (_ & _ & _ & _ & _ & _ & HE). cbn [fst snd] in HE.
+  cbn [nth vcoord] in *.
+  pose proof (quad_rot 2 Rm C C' [a0'; a1'] (or_introl eq_refl) HC eq_refl) as Eu.
+  rewrite rot_applyT2 in Eu. rewrite Q1' in Eu.
+  set (u0 := d2 r00 r10 a0' a1') in *. set (u1 := d2 r01 r11 a0' a1') in *.
+  pose proof (parseval2 r00 r10 r01 r11 B00 B11 B01 a0' a1') as Pu. fold u0 u1 in Pu.
+  assert (u0 * u0 + u1 * u1 = 1) as Uu by lra.
+  pose proof (Q3 [u0; u1] eq_refl ltac:(cbn; lra)) as Lo.
+  pose proof (quad_rot 2 Rm C C' (rot_apply 2 Rm [a0; a1]) (or_introl eq_refl) HC ltac:(rewrite rot_apply2; reflexivity)) as Ew.
+  rewrite rot_apply2 in Ew. rewrite rot_applyT2 in Ew.
+  set (w0 := d2 r00 r01 a0 a1) in *. set (w1 := d2 r10 r11 a0 a1) in *.
+  destruct (resolve2 r00 r01 r10 r11 A00 A11 A01 a0 a1) as (Z0 & Z1). fold w0 w1 in Z0, Z1.
+  replace (d2 r00 r10 w0 w1) with a0 in Ew by (unfold d2; lra).
+  replace (d2 r01 r11 w0 w1) with a1 in Ew by (unfold d2; lra).
+  rewrite Q1 in Ew.
+  pose proof (parseval2 r00 r01 r10 r11 A00 A11 A01 a0 a1) as Pw. fold w0 w1 in Pw.
+  pose proof (Q3' [w0; w1] eq_refl ltac:(cbn; lra)) as Hi. rewrite Ew in Hi.
+  assert (l0' = l0) as E0 by lra. split; [exact E0|].
+  rewrite (quad2_expand C l0 l1 a0 a1 b0 b1 _ _ HE) in Eu.
+  pose proof (parseval2 a0 a1 b0 b1 R00 R11 R01 u0 u1) as Pe.
+  set (A := d2 a0 a1 u0 u1) in *. set (B := d2 b0 b1 u0 u1) in *.
+  assert (0 + (l1 - l0) * (B * B) + 1 * (0 * 0) = 0) as Zs.
+  { replace (A * A) with (1 - B * B) in Eu by lra. lra. }
+  destruct (nonneg_sum_zero (l1 - l0) 1 0 B 0 ltac:(lra) ltac:(lra) ltac:(lra) Zs) as (_ & ZB & _).
+  destruct (resolve2 r00 r10 r01 r11 B00 B11 B01 a0' a1') as (V0 & V1). fold u0 u1 in V0, V1.
+  rewrite rot_apply2.
+  destruct (align2 a0 a1 b0 b1 R00 R11 R01 u0 u1 Uu ZB) as [(_ & Y0 & Y1)|(_ & Y0 & Y1)];
+    rewrite Y0, Y1 in V0, V1; [left|right].
+  - unfold d2. f_equal; [lra|f_equal; lra].
+  - unfold vneg. cbn [map nneg ROps]. unfold d2. f_equal; [lra|f_equal; lra].
+Qed.
+End Rot.
+
+Lemma rotation_equivariance_partial : forall dim Rm C C' lam cols lam' cols',
+  dim = 2%nat \/ dim = 3%nat ->
+  is_rotation dim Rm -> conj_by dim Rm C C' ->
+  eig_contract dim C (lam, cols) -> eig_contract dim C' (lam', cols') ->
+  vcoord ROps lam 0 < vcoord ROps lam 1 ->
+  vcoord ROps lam' 0 = vcoord ROps lam 0 /\
+  (nth 0 cols' [] = rot_apply dim Rm (nth 0 cols []) \/
+   nth 0 cols' [] = vneg ROps (rot_apply dim Rm (nth 0 cols []))).
+Proof.
+  intros dim Rm C C' lam cols lam' cols' [->| ->].
+  - apply rotation_equivariance2.
+  - apply rotation_equivariance3.
+Qed.
+
+(* ------------------------------------------------------------------ rotating the cloud *)
+(* rotate the Cartesian part (first dim entries), keep the rest (w) *)
+Definition rot_point (dim : nat) (Rm : list (list R)) (q : list R) : list R :=
+  rot_apply dim Rm q ++ skipn dim q.
+
+Lemma rot_apply_length dim Rm x : length (rot_apply dim Rm x) = dim.
+Proof. unfold rot_apply. rewrite map_length, seq_length. reflexivity. Qed.
+
+Lemma rot_point_length dim Rm q : (dim <= length q)%nat -> length (rot_point dim Rm q) = length q.
+Proof. intros H. unfold rot_point. rewrite app_length, rot_apply_length, skipn_length. lia. Qed.
+
+Lemma rot_point_firstn dim Rm q : firstn dim (rot_point dim Rm q) = rot_apply dim Rm q.
+Proof. apply firstn_app_len. apply rot_apply_length. Qed.
+
+Lemma vcoord_rot_point dim Rm q i : (i < dim)%nat ->
+  vcoord ROps (rot_point dim Rm q) i = sumn (fun k => mget ROps Rm i k * vcoord ROps q k) dim.
+Proof.
+  intros Hi. unfold vcoord at 1. unfold rot_point. rewrite app_nth1 by (rewrite rot_apply_length; exact Hi).
+  unfold rot_apply. rewrite nth_map_seq by exact Hi. reflexivity.
+Qed.
+
+Lemma lsum_ext_in {A} (f g : A -> R) l : (forall q, In q l -> f q = g q) -> lsum f l = lsum g l.
+Proof.
+  induction l as [|c l IH]; intros H; [reflexivity|].
+  change (f c + lsum f l = g c + lsum g l). rewrite (H c) by (left; reflexivity).
+  rewrite IH; [reflexivity|]. intros q Hq. apply H. right. exact Hq.
+Qed.
+
+Lemma lin_sum dim {A} (a : nat -> R) (g : nat -> A -> R) l : dim = 2%nat \/ dim = 3%nat ->
+  lsum (fun q => sumn (fun k => a k * g k q) dim) l = sumn (fun k => a k * lsum (g k) l) dim.
+Proof.
+  intros [->| ->]; cbn [sumn]; induction l as [|c l IH]; unfold lsum in *; cbn [map fold_right];
+    try ring; rewrite IH; ring.
+Qed.
+
+Lemma bilin_sum dim {A} (d : nat -> A -> R) (pa sb : nat -> R) l : dim = 2%nat \/ dim = 3%nat ->
+  lsum (fun q => sumn (fun k => pa k * d k q) dim * sumn (fun k => sb k * d k q) dim) l
+  = sumn (fun k => sumn (fun k' => pa k * lsum (fun q => d k q * d k' q) l * sb k') dim) dim.
+Proof.
+  intros [->| ->]; cbn [sumn]; induction l as [|c l IH]; unfold lsum in *; cbn [map fold_right];
+    try ring; rewrite IH; ring.
+Qed.
+
+(* a centred rotated neighbour is the rotated centred neighbour (Cartesian coordinates) *)
+Lemma centred_rot dim size Rm nb q i :
+  dim = 2%nat \/ dim = 3%nat -> (dim <= size)%nat -> (forall q, In q nb -> length q = size) ->
+  In q nb -> (i < dim)%nat ->
+  vcoord ROps (vsub ROps (rot_point dim Rm q) (mean ROps size (map (rot_point dim Rm) nb))) i
+  = sumn (fun k => mget ROps Rm i k * vcoord ROps (vsub ROps q (mean ROps size nb)) k) dim.
+Proof.
+  intros D Ds Hl Hq Hi.
+  assert (forall q', In q' (map (rot_point dim Rm) nb) -> length q' = size) as Hl'.
+  { intros q' Hq'. apply in_map_iff in Hq'. destruct Hq' as (q0 & <- & H0).
+    rewrite rot_point_length; rewrite (Hl q0 H0); lia. }
+  destruct (mean_coord size nb Hl) as [Lm Mc]. destruct (mean_coord size _ Hl') as [Lm' Mc'].
+  rewrite vcoord_vsub by (rewrite Lm', rot_point_length; rewrite (Hl q Hq); lia).
+  rewrite Mc', map_length, lsum_map, vcoord_rot_point by exact Hi.
+  rewrite (lsum_ext_in _ (fun q0 => sumn (fun k => mget ROps Rm i k * vcoord ROps q0 k) dim))
+    by (intros q0 _; apply vcoord_rot_point; exact Hi).
+  rewrite (lin_sum dim (fun k => mget ROps Rm i k) (fun k q0 => vcoord ROps q0 k) nb D).
+  assert (forall k, vcoord ROps (vsub ROps q (mean ROps size nb)) k
+                    = vcoord ROps q k - lsum (fun q0 => vcoord ROps q0 k) nb / INR (length nb)) as Ek.
+  { intros k. rewrite vcoord_vsub by (rewrite Lm; apply Hl; exact Hq). rewrite Mc. reflexivity. }
+  destruct D as [->| ->]; cbn [sumn]; rewrite !Ek; unfold Rdiv; ring.
+Qed.
+
+(* (a) the covariance of the rotated cloud is Rm C Rm^T — for any matrix Rm *)
+Lemma covariance_rotated dim size Rm nb :
+  dim = 2%nat \/ dim = 3%nat -> (dim <= size)%nat -> (forall q, In q nb -> length q = size) ->
+  conj_by dim Rm (covariance ROps dim size nb) (covariance ROps dim size (map (rot_point dim Rm) nb)).
+Proof.
+  intros D Ds Hl i j Hi Hj.
+  rewrite mget_covariance, cov_entry_lsum, scalar_INR, map_length by assumption.
+  rewrite lsum_map, lsum_map.
+  set (m := mean ROps size nb). set (m' := mean ROps size (map (rot_point dim Rm) nb)).
+  rewrite (lsum_ext_in _ (fun q => sumn (fun k => mget ROps Rm i k * vcoord ROps (vsub ROps q m) k) dim
+                                   * sumn (fun k => mget ROps Rm j k * vcoord ROps (vsub ROps q m) k) dim)).
+  2:{ intros q Hq. unfold m, m'. rewrite !(centred_rot dim size Rm nb q) by assumption. reflexivity. }
+  rewrite (bilin_sum dim (fun k q => vcoord ROps (vsub ROps q m) k) (fun k => mget ROps Rm i k)
+                     (fun k => mget ROps Rm j k) nb D).
+  destruct D as [->| ->]; cbn [sumn]; rewrite !mget_covariance by lia; rewrite !cov_entry_lsum, !scalar_INR;
+    rewrite !lsum_map; fold m; unfold Rdiv; ring.
+Qed.
+
+(* rotations preserve the dot product *)
+Lemma polar3 a0 a1 a2 b0 b1 b2 c0 c1 c2 x0 x1 x2 y0 y1 y2 :
+  a0 * a0 + b0 * b0 + c0 * c0 = 1 -> a1 * a1 + b1 * b1 + c1 * c1 = 1 -> a2 * a2 + b2 * b2 + c2 * c2 = 1 ->
+  a0 * a1 + b0 * b1 + c0 * c1 = 0 -> a0 * a2 + b0 * b2 + c0 * c2 = 0 -> a1 * a2 + b1 * b2 + c1 * c2 = 0 ->
+  d3 a0 a1 a2 x0 x1 x2 * d3 a0 a1 a2 y0 y1 y2 + d3 b0 b1 b2 x0 x1 x2 * d3 b0 b1 b2 y0 y1 y2
+  + d3 c0 c1 c2 x0 x1 x2 * d3 c0 c1 c2 y0 y1 y2 = x0 * y0 + x1 * y1 + x2 * y2.
+Proof.
+  intros R00 R11 R22 R01 R02 R12.
+  transitivity (x0 * y0 * (a0 * a0 + b0 * b0 + c0 * c0) + x1 * y1 * (a1 * a1 + b1 * b1 + c1 * c1)
+                + x2 * y2 * (a2 * a2 + b2 * b2 + c2 * c2) + (x0 * y1 + x1 * y0) * (a0 * a1 + b0 * b1 + c0 * c1)
+                + (x0 * y2 + x2 * y0) * (a0 * a2 + b0 * b2 + c0 * c2) + (x1 * y2 + x2 * y1) * (a1 * a2 + b1 * b2 + c1 * c2)).
+  - unfold d3. ring.
+  - rewrite R00, R11, R22, R01, R02, R12. ring.
+Qed.
+
+Lemma polar2 a0 a1 b0 b1 x0 x1 y0 y1 :
+  a0 * a0 + b0 * b0 = 1 -> a1 * a1 + b1 * b1 = 1 -> a0 * a1 + b0 * b1 = 0 ->
+  d2 a0 a1 x0 x1 * d2 a0 a1 y0 y1 + d2 b0 b1 x0 x1 * d2 b0 b1 y0 y1 = x0 * y0 + x1 * y1.
+Proof.
+  intros R00 R11 R01.
+  transitivity (x0 * y0 * (a0 * a0 + b0 * b0) + x1 * y1 * (a1 * a1 + b1 * b1)
+                + (x0 * y1 + x1 * y0) * (a0 * a1 + b0 * b1)).
+  - unfold d2. ring.
+  - rewrite R00, R11, R01. ring.
+Qed.
+
+Lemma rot_apply_coords3 Rm p :
+  rot_apply 3 Rm p = rot_apply 3 Rm [vcoord ROps p 0; vcoord ROps p 1; vcoord ROps p 2].
+Proof. reflexivity. Qed.
+Lemma rot_apply_coords2 Rm p : rot_apply 2 Rm p = rot_apply 2 Rm [vcoord ROps p 0; vcoord ROps p 1].
+Proof. reflexivity. Qed.
+
+Lemma rot_dot dim Rm x p : dim = 2%nat \/ dim = 3%nat -> is_rotation dim Rm -> length x = dim ->
+  vdot ROps (rot_apply dim Rm x) (rot_apply dim Rm p) = vdot ROps x (firstn dim p).
+Proof.
+  intros [->| ->] HR Lx.
+  - destruct (rot_facts2 Rm HR) as ((A00 & A11 & A01) & _).
+    destruct x as [|x0 [|x1 [|? ?]]]; try discriminate Lx.
+    rewrite (rot_apply_coords2 Rm p), !rot_apply2. rewrite (vdot_comm _ (firstn 2 p)), dotfirst2.
+    rewrite !vdot_cons, vdot_nil_l.
+    pose proof (polar2 _ _ _ _ x0 x1 (vcoord ROps p 0) (vcoord ROps p 1) A00 A11 A01). lra.
+  - destruct (rot_facts3 Rm HR) as ((A00 & A11 & A22 & A01 & A02 & A12) & _).
+    destruct x as [|x0 [|x1 [|x2 [|? ?]]]]; try discriminate Lx.
+    rewrite (rot_apply_coords3 Rm p), !rot_apply3. rewrite (vdot_comm _ (firstn 3 p)), dotfirst3.
+    rewrite !vdot_cons, vdot_nil_l.
+    pose proof (polar3 _ _ _ _ _ _ _ _ _ x0 x1 x2 (vcoord ROps p 0) (vcoord ROps p 1) (vcoord ROps p 2)
+                       A00 A11 A22 A01 A02 A12). lra.
+Qed.
+
+Lemma rot_apply_vneg dim Rm x : dim = 2%nat \/ dim = 3%nat -> length x = dim ->
+  rot_apply dim Rm (vneg ROps x) = vneg ROps (rot_apply dim Rm x).
+Proof.
+  intros [->| ->] Lx.
+  - destruct x as [|x0 [|x1 [|? ?]]]; try discriminate Lx. unfold vneg. cbn [map nneg ROps].
+    rewrite !rot_apply2. cbn [map]. unfold d2. f_equal; [ring|f_equal; ring].
+  - destruct x as [|x0 [|x1 [|x2 [|? ?]]]]; try discriminate Lx. unfold vneg. cbn [map nneg ROps].
+    rewrite !rot_apply3. cbn [map]. unfold d3. f_equal; [ring|f_equal; [ring|f_equal; ring]].
+Qed.
+
+Lemma vneg_vneg x : vneg ROps (vneg ROps x) = x.
+Proof. unfold vneg. cbn [nneg ROps]. apply map_opp_opp. Qed.
+
+(* the eigenvalue sum is the trace, and the trace is invariant under conjugation by a rotation *)
+Lemma trace_contract dim C lam cols : dim = 2%nat \/ dim = 3%nat -> eig_contract dim C (lam, cols) ->
+  vsum ROps lam = sumn (fun i => mget ROps C i i) dim.
+Proof.
+  intros [->| ->] H.
+  - destruct (contract_dim2 C lam cols H) as (l0 & l1 & a0 & a1 & b0 & b1 & -> & -> & _ & _ & (K00 & K11 & _)).
+    destruct H as (_ & _ & _ & _ & _ & _ & HC). cbn [fst snd] in HC.
+    cbn [sumn]. rewrite !HC by lia. unfold vsum, vc. cbn.
+    transitivity (l0 * (a0 * a0 + a1 * a1) + l1 * (b0 * b0 + b1 * b1)); [rewrite K00, K11; ring|ring].
+  - destruct (contract_dim3 C lam cols H) as (l0 & l1 & l2 & a0 & a1 & a2 & b0 & b1 & b2 & c0 & c1 & c2 & -> & -> & _ & _
+        & _ & (K00 & K11 & K22 & _)).
+    destruct H as (_ & _ & _ & _ & _ & _ & HC). cbn [fst snd] in HC.
+    cbn [sumn]. rewrite !HC by lia. unfold vsum, vc. cbn.
+    transitivity (l0 * (a0 * a0 + a1 * a1 + a2 * a2) + l1 * (b0 * b0 + b1 * b1 + b2 * b2)
+                  + l2 * (c0 * c0 + c1 * c1 + c2 * c2)); [rewrite K00, K11, K22; ring|ring].
+Qed.
+
+Lemma trace_conj dim Rm C C' : dim = 2%nat \/ dim = 3%nat -> is_rotation dim Rm -> conj_by dim Rm C C' ->
+  sumn (fun i => mget ROps C' i i) dim = sumn (fun i => mget ROps C i i) dim.
+Proof.
+  intros [->| ->] HR HC.
+  - destruct (rot_facts2 Rm HR) as ((A00 & A11 & A01) & _).
+    cbn [sumn]. rewrite !HC by lia. cbn [sumn].
+    set (k00 := mget ROps C 0 0). set (k01 := mget ROps C 0 1). set (k10 := mget ROps C 1 0). set (k11 := mget ROps C 1 1).
+    transitivity (k00 * (mget ROps Rm 0 0 * mget ROps Rm 0 0 + mget ROps Rm 1 0 * mget ROps Rm 1 0)
+                  + k11 * (mget ROps Rm 0 1 * mget ROps Rm 0 1 + mget ROps Rm 1 1 * mget ROps Rm 1 1)
+                  + (k01 + k10) * (mget ROps Rm 0 0 * mget ROps Rm 0 1 + mget ROps Rm 1 0 * mget ROps Rm 1 1));
+      [ring|rewrite A00, A11, A01; ring].
+  - destruct (rot_facts3 Rm HR) as ((A00 & A11 & A22 & A01 & A02 & A12) & _).
+    cbn [sumn]. rewrite !HC by lia. cbn [sumn].
+    set (k00 := mget ROps C 0 0). set (k01 := mget ROps C 0 1). set (k02 := mget ROps C 0 2).
+    set (k10 := mget ROps C 1 0). set (k11 := mget ROps C 1 1). set (k12 := mget ROps C 1 2).
+    set (k20 := mget ROps C 2 0). set (k21 := mget ROps C 2 1). set (k22 := mget ROps C 2 2).
+    transitivity (k00 * (mget ROps Rm 0 0 * mget ROps Rm 0 0 + mget ROps Rm 1 0 * mget ROps Rm 1 0 + mget ROps Rm 2 0 * mget ROps Rm 2 0)
+                  + k11 * (mget ROps Rm 0 1 * mget ROps Rm 0 1 + mget ROps Rm 1 1 * mget ROps Rm 1 1 + mget ROps Rm 2 1 * mget ROps Rm 2 1)
+                  + k22 * (mget ROps Rm 0 2 * mget ROps Rm 0 2 + mget ROps Rm 1 2 * mget ROps Rm 1 2 + mget ROps Rm 2 2 * mget ROps Rm 2 2)
+                  + (k01 + k10) * (mget ROps Rm 0 0 * mget ROps Rm 0 1 + mget ROps Rm 1 0 * mget ROps Rm 1 1 + mget ROps Rm 2 0 * mget ROps Rm 2 1)
+                  + (k02 + k20) * (mget ROps Rm 0 0 * mget ROps Rm 0 2 + mget ROps Rm 1 0 * mget ROps Rm 1 2 + mget ROps Rm 2 0 * mget ROps Rm 2 2)
+                  + (k12 + k21) * (mget ROps Rm 0 1 * mget ROps Rm 0 2 + mget ROps Rm 1 1 * mget ROps Rm 1 2 + mget ROps Rm 2 1 * mget ROps Rm 2 2));
+      [ring|rewrite A00, A11, A22, A01, A02, A12; ring].
+Qed.
+
+(* the full property: rotating the neighbours and the point about the sensor rotates the normal *)
+Lemma rotation_equivariance : forall eig dim size p nb normal_in normal_in' Rm,
+  dim = 2%nat \/ dim = 3%nat -> is_rotation dim Rm ->
+  (dim <= size)%nat -> (forall q, In q nb -> length q = size) ->
+  let nb' := map (rot_point dim Rm) nb in
+  let p' := rot_point dim Rm p in
+  eig_contract dim (covariance ROps dim size nb) (eig (covariance ROps dim size nb)) ->
+  eig_contract dim (covariance ROps dim size nb') (eig (covariance ROps dim size nb')) ->
+  let e := estimate_point ROps eig false dim size p nb normal_in in
+  let e' := estimate_point ROps eig false dim size p' nb' normal_in' in
+  vcoord ROps (e_lambda e) 0 < vcoord ROps (e_lambda e) 1 ->
+  vdot ROps (firstn dim (e_normal e)) (firstn dim p) <> 0 ->
+  firstn dim (e_normal e') = rot_apply dim Rm (firstn dim (e_normal e)) /\
+  vcoord ROps (e_lambda e') 0 = vcoord ROps (e_lambda e) 0 /\
+  e_curvature e' = e_curvature e.
+Proof.
+  intros eig dim size p nb normal_in normal_in' Rm D HR Ds Hl. cbv zeta. intros H H'.
+  pose proof (normal_faces_sensor eig dim size p nb normal_in D H) as F.
+  pose proof (normal_faces_sensor eig dim size (rot_point dim Rm p) _ normal_in' D H') as F'.
+  cbv zeta in F, F'. rewrite rot_point_firstn in F'.
+  destruct (normal_cases eig dim size p nb normal_in D H) as (-> & -> & L & _ & Hn).
+  destruct (normal_cases eig dim size (rot_point dim Rm p) _ normal_in' D H') as (-> & -> & L' & _ & Hn').
+  pose proof (covariance_rotated dim size Rm nb D Ds Hl) as HC.
+  set (C := covariance ROps dim size nb) in *.
+  set (C' := covariance ROps dim size (map (rot_point dim Rm) nb)) in *.
+  destruct (eig C) as [lam cols]. destruct (eig C') as [lam' cols']. cbn [fst snd] in *.
+  intros Gap NZ.
+  destruct (rotation_equivariance_partial dim Rm C C' lam cols lam' cols' D HR HC H H' Gap) as (E0 & Hv).
+  split; [|split; [exact E0|]].
+  2:{ unfold curvature. cbn [ndiv ROps]. rewrite E0.
+      rewrite (trace_contract dim C lam cols D H), (trace_contract dim C' lam' cols' D H').
+      rewrite (trace_conj dim Rm C C' D HR HC). reflexivity. }
+  set (n := firstn dim (e_normal (estimate_point ROps eig false dim size p nb normal_in))) in *.
+  set (n' := firstn dim (e_normal (estimate_point ROps eig false dim size (rot_point dim Rm p)
+                                                  (map (rot_point dim Rm) nb) normal_in'))) in *.
+  assert (length n = dim) as Ln.
+  { destruct Hn as [[-> _]|[-> _]]; [exact L|rewrite vneg_length; exact L]. }
+  assert (n' = rot_apply dim Rm n \/ n' = vneg ROps (rot_apply dim Rm n)) as Hc.
+  { destruct Hn as [[-> _]|[-> _]]; destruct Hn' as [[-> _]|[-> _]]; destruct Hv as [->| ->];
+      rewrite ?(rot_apply_vneg dim Rm _ D L), ?vneg_vneg; auto. }
+  destruct Hc as [->|Eq]; [reflexivity|exfalso].
+  rewrite Eq, vdot_vneg_l, (rot_dot dim Rm n p D HR Ln) in F'. lra.
+Qed.
